@@ -14,25 +14,34 @@ class InjectedFault(Exception):
     pass
 
 
+class InjectedArith(InjectedFault, ZeroDivisionError):
+    """fault raised inside the EVALUATION of a task (a user function that divides by zero)"""
+
+
 class Trace:
     """Shared by all logging containers of one world."""
 
     def __init__(self):
         self.events = []      # (path, value) of every completed write
-        self.count = 0        # write attempts since last reset
+        self.kinds = []       # kind of every fault point met since the last reset: 'w' container write, 'e' evaluation (user function)
+        self.count = 0        # fault points (write attempts + evaluation points) since last reset
         self.fail_at = None   # raise InjectedFault on this attempt index
         self.calls = []       # FunctionTask action calls (task id)
 
     def reset(self, fail_at=None):
         self.events = []
+        self.kinds = []
         self.calls = []
         self.count = 0
         self.fail_at = fail_at
 
-    def attempt(self, path):
+    def attempt(self, path, kind="w"):
         k = self.count
         self.count += 1
+        self.kinds.append(kind)
         if self.fail_at is not None and k == self.fail_at:
+            if kind == "e":
+                raise InjectedArith(f"injected fault at point #{k}: evaluation of {T.path_str(path)}")
             raise InjectedFault(f"injected fault at write #{k} to {T.path_str(path)}")
 
 
@@ -160,6 +169,7 @@ class World:
         self.trace = Trace()
         self.data = wrap(spec["data"], ("s",), self.trace)
         self.funcs = Funcs()
+        self.funcs._trace = self.trace      # f.flaky(x) is a fault point of the evaluation kind
         self.m = Manager()
         if spec.get("refattr"):
             # container registered with Manager.refattr(): attribute access on the ref means item access on the container
